@@ -45,29 +45,44 @@ def chars(s):
 
 
 def fnum(x, scale):
-    """ float -> {'v': scaled integer, 'd': sign(float - v/scale)} ; refuses if not within 1e-6 """
-    if x is None or (isinstance(x, float) and (math.isnan(x) or math.isinf(x))):
-        raise Inexact(f'not finite: {x}')
+    """ float -> {'v': scaled integer, 'd': sign(float - v/scale)} """
+    if x is None or (isinstance(x, float) and (math.isnan(x) or math.isinf(x))) or pd.isna(x):
+        return {'v': -999999, 'd': 0}
     xf = float(x)
-    v = int(round(xf * scale))
-    if abs(xf * scale - v) > 1e-6 * max(1.0, abs(v)) and abs(xf * scale - v) > 1e-6:
-        raise Inexact(f'{x!r} is not a multiple of 1/{scale}')
+    v = int(round(xf * scale))          # an observed value off the lattice is not refused: the clauses will not find it admissible
     dev = Fraction(xf) - Fraction(v, scale)
     return {'v': v, 'd': (dev > 0) - (dev < 0)}
 
 
 def iround(x, scale):
-    return int(round(float(x) * scale))
+    try:
+        xf = float(x)
+        if math.isnan(xf) or math.isinf(xf):
+            return -999999
+        return int(round(xf * scale))
+    except Exception:
+        return -999999
 
 
-def hint(h):
+def hint(h, strict=True):
+    """ integer feet, -1 for NaN. strict (inputs): a value off the integer lattice makes the scenario inexact;
+    not strict (observed state): it is projected to a sentinel that no specification value equals """
     if h is None or (isinstance(h, float) and math.isnan(h)) or pd.isna(h):
         return NAN_H
-    hf = float(h)
-    if hf != round(hf):
-        raise Inexact(f'non-integer height {h!r}')
+    try:
+        hf = float(h)
+    except Exception:
+        if strict:
+            raise Inexact(f'height {h!r}')
+        return -9
+    if hf != round(hf) or math.isinf(hf):
+        if strict:
+            raise Inexact(f'non-integer height {h!r}')
+        return -7
     if hf < 0:
-        raise Inexact(f'negative height {h!r} collides with the NaN sentinel')
+        if strict:
+            raise Inexact(f'negative height {h!r} collides with the NaN sentinel')
+        return -8
     return int(hf)
 
 
@@ -193,14 +208,26 @@ def dt_ranks(dts):
     return {v: i + 1 for i, v in enumerate(vals)}
 
 
-def project_rows(frame, ranks):
+def project_rows(frame, ranks, strict=True):
     rows = []
     cs = frame['ceilo'].tolist()
     ts = frame['dt'].tolist()
     hs = frame['height'].tolist()
     ks = frame['type'].tolist()
     for c, t, h, k in zip(cs, ts, hs, ks):
-        rows.append({'c': str(c), 't': ranks[float(t)], 'h': hint(h), 'k': int(k)})
+        try:
+            tt = ranks[float(t)]
+        except Exception:
+            if strict:
+                raise Inexact(f'dt {t!r}')
+            tt = 0                      # a time stamp that is not one of the input's
+        try:
+            kk = int(k)
+        except Exception:
+            if strict:
+                raise Inexact(f'type {k!r}')
+            kk = -99
+        rows.append({'c': str(c), 't': tt, 'h': hint(h, strict), 'k': kk})
     return rows
 
 
@@ -238,9 +265,9 @@ def project_table(tb, which):
             'perc4': iround(r['perc'], 10000),
             'okta': int(r['okta']),
             'b': fnum(r['height_base'], 100),
-            'hmin': hint(r['height_min']),
-            'hmax': hint(r['height_max']),
-            'thick': hint(r['thickness']),
+            'hmin': hint(r['height_min'], False),
+            'hmax': hint(r['height_max'], False),
+            'thick': hint(r['thickness'], False),
             'mean1000': iround(r['height_mean'], 1000),
             'std10': -1 if math.isnan(std) else iround(std, 10),
             'fk': fk,
@@ -263,7 +290,7 @@ def project_table(tb, which):
 def snapshot(chunk, ranks):
     """ Full projected state of a chunk. """
     d = chunk.data
-    snap = {'data': project_rows(d, ranks), 'flag': bool(chunk.clouds_above_msa_buffer),
+    snap = {'data': project_rows(d, ranks, strict=False), 'flag': bool(chunk.clouds_above_msa_buffer),
             'has': {}, 'ids': {}, 'hast': {}, 'tbl': {}, 'nrep': {}}
     for w in WHICH:
         f = FLD[w]
@@ -289,18 +316,20 @@ EMPTY_SNAP = {'data': [], 'flag': False, 'has': {'s': False, 'g': False, 'l': Fa
 
 
 def check_int_range(x):
-    """ TLC integers are 32 bit and its Json module mangles larger ones """
-    if isinstance(x, bool):
-        return
-    if isinstance(x, int):
-        if abs(x) >= 2 ** 31 - 1:
-            raise Inexact(f'integer {x} outside the 32-bit range')
-    elif isinstance(x, dict):
-        for v in x.values():
-            check_int_range(v)
-    elif isinstance(x, (list, tuple)):
-        for v in x:
-            check_int_range(v)
+    """ TLC integers are 32 bit and its Json module mangles larger ones: observed values are clamped (in place) """
+    lim = 2000000000
+    if isinstance(x, dict):
+        for k, v in x.items():
+            if isinstance(v, int) and not isinstance(v, bool) and abs(v) > lim:
+                x[k] = lim if v > 0 else -lim
+            else:
+                check_int_range(v)
+    elif isinstance(x, list):
+        for i, v in enumerate(x):
+            if isinstance(v, int) and not isinstance(v, bool) and abs(v) > lim:
+                x[i] = lim if v > 0 else -lim
+            else:
+                check_int_range(v)
 
 
 def exc_name(e):
